@@ -26,3 +26,11 @@ Proof.
   split; first by apply/eqP; rewrite pnatr_eq0.
   by [].
 Qed.
+
+From EasyML Require Import Proofs.C08P8.
+(* the same run also meets the extra hypothesis of the triangularity theorem *)
+Lemma qr_example_lengths : qr_lengths_ok sq_example 2 (List.seq 0 (Nat.min (2 - 1) 1)) m_example.
+Proof.
+  rewrite /m_example /= /sumsq /= /sq_example.
+  by rewrite !add0r !mulr0 !addr0 !mulr1 ?eqxx ?mulr1.
+Qed.
